@@ -6,6 +6,63 @@ import os
 ROOT = os.path.dirname(os.path.dirname(os.path.abspath(__file__)))
 
 CHECKS = {
+    'C11': dict(
+        category='exploration',
+        text=('Hypothesis-drawn histories of translate / fresh-translator / set-package operations over a pool of generated, erased and '
+              'overwritten programs (plus the fixture programs with smart casts) and reusable translator objects of all four languages; '
+              'every text must equal the text first obtained from a fresh translator, and every touched program must be structurally '
+              'unchanged against a deep copy taken before translation.'),
+        design_ref='DESIGN.md §3 C11',
+        note='Golden text = first translation by a fresh translator object; cross-language translations that raise must raise identically.',
+        technique='history-based property testing (Hypothesis operation sequences) with a golden-text / structural-diff oracle',
+    ),
+    'C13': dict(
+        category='exploration',
+        text=('Round trip through the real dump/load functions at every save point (G, E1, E2, O) of Hypothesis-configured pipelines in 4 '
+              'languages: equal text under all four translators, equal results of erasure+overwriting under identical RNG, stable second '
+              'dump, equal reverse namespace lookups.'),
+        design_ref='DESIGN.md §3 C13',
+        note='Pickle bytes / object sharing are reported only; observable behaviour (1)-(4) is judged.',
+        technique='round-trip property testing over generated programs (seed and Hypothesis-tape mode)',
+    ),
+    'C14': dict(
+        category='fault_enumeration',
+        text=('Grammar-based generation of compiler outputs in the four real formats with ground truth by construction (files, errors, '
+              'warnings, notes, summaries, quoted lines, filters, crashes) plus real javac batches whose ground truth is each file compiled '
+              'alone and parsed by an independent parser.'),
+        design_ref='DESIGN.md §3 C14',
+        note='kotlinc / groovyc / scalac formats come from documentation and the project README (compilers not installed); javac is real.',
+        technique='grammar-based fuzzing with constructed ground truth + differential test against per-file javac runs',
+    ),
+    'C15': dict(
+        category='fault_enumeration',
+        text=('The real driver main loop runs in fresh interpreters with the compiler replaced by a stand-in that renders real-format output '
+              'from a planned verdict table and generation replaced by a faithful stub (1 in 10 sessions: the real generator): exhaustive '
+              'decision table for batches of 1-3 programs x crash, and Hypothesis-drawn sessions, sequential and worker-pool mode, judged '
+              'against a reference model of faults, messages, counters, faults.json and the directory tree.'),
+        design_ref='DESIGN.md §3 C15',
+        note='Worker-pool mode is judged at quiescence; --debug/--rerun/--keep-all/--dry-run are outside the domain.',
+        technique='exhaustive decision-table enumeration + model-based session testing with fault injection (scripted compiler)',
+    ),
+    'C17': dict(
+        category='exploration',
+        text=('Every object reachable from programs generated under all 16 switch combinations x 4 languages (seed mode and '
+              'Hypothesis-tape mode) is inspected for use-site projections, contravariant projections, bounds, function type parameters '
+              'and declaration-site variance; stray objects are traced to their creation site by deterministic re-generation.'),
+        design_ref='DESIGN.md §3 C17',
+        note='Type parameters of builtin constructors are scaffolding; the per-switch feature rates show the feature occurs when allowed.',
+        technique='property-based testing of the generator over its configuration space with an object-graph invariant',
+    ),
+    'C18': dict(
+        category='exploration',
+        text=('Pipelines generate/translate/erase/translate/overwrite/translate over Hypothesis-drawn seeds, switches and limits in 4 '
+              'languages, in seed mode and in tape mode (Hypothesis owns every random choice, failures shrink); any exception is a '
+              'violation bucketed by (stage, type, innermost repository frame); generator depth counter, generate_expr nesting and AST '
+              'depth are bounded by functions of max_depth.'),
+        design_ref='DESIGN.md §3 C18',
+        note='Termination is bounded work on generated cases, not liveness; oversize cases (step budget) are discarded and counted.',
+        technique='random + Hypothesis-tape fuzzing of the whole pipeline with crash bucketing and work counters',
+    ),
     'C06': dict(
         category='exploration',
         text=('impl.is_subtype / is_assignable compared with an independent declarative relation (RM: JLS 4.5.1 / Kotlin containment on '
